@@ -79,6 +79,43 @@ class Mole:
         self.cart = bool(cart)
 
 
+class IOData:
+    """Stub of iodata.iodata.IOData: what from_iodata reads (class name, obasis, atcoords)."""
+
+    def __init__(self, atcoords, obasis):
+        self.atcoords = atcoords
+        self.obasis = obasis
+
+
+class _IOBasis:
+    def __init__(self, shells, conventions):
+        self.shells = shells
+        self.conventions = conventions
+        self.primitive_normalization = "L2"
+
+
+class _IOShell:
+    def __init__(self, icenter, l, kind, exps, coeffs):
+        self.icenter = icenter
+        self.angmoms = [l]
+        self.kinds = [kind]
+        self.exponents = np.array(exps, dtype=float)
+        self.coeffs = np.array(coeffs, dtype=float).reshape(-1, 1)
+
+    @property
+    def ncon(self):
+        return len(self.angmoms)
+
+
+def make_iodata(op):
+    conv = {}
+    for k, v in op["conventions"].items():
+        l, t = k.split(",")
+        conv[(int(l), t)] = list(v)
+    shells = [_IOShell(s["icenter"], s["l"], s["kind"], s["exps"], s["coeffs"]) for s in op["shells"]]
+    return IOData(np.array(op["atcoords"], dtype=float).reshape(-1, 3), _IOBasis(shells, conv))
+
+
 class World:
     def __init__(self, fs, history_side):
         self.api = load()
@@ -484,9 +521,11 @@ def r_new_mole(w, op):
 
 
 def r_from_pyscf(w, op):
-    if not w.moles:
+    pm = [e for e in w.moles if e.role != "iodata"]
+    if not pm:
         w.moles.append(Entry(Mole([["H", [0.0, 0.0, 0.0]]], {"H": [[0, [1.2, 0.7], [0.3, 0.4]]]}, False)))
-    m = w.moles[op["md"] % len(w.moles)].obj
+        pm = [w.moles[-1]]
+    m = pm[op["md"] % len(pm)].obj
     fn = w.api.fn["from_pyscf"]
     arg = m
     valid = True
@@ -526,6 +565,43 @@ def r_from_pyscf(w, op):
 
     b = Bound("W" if op["keep"] else "query", "from_pyscf", call=lambda: fn(arg), args=[arg], post=post,
               expect=expect, importy=True)
+    b.valid = valid
+    return b
+
+
+def r_new_iodata(w, op):
+    m = make_iodata(op)
+
+    def post(_):
+        w.moles.append(Entry(m, "iodata"))
+
+    return Bound("W", "new_iodata", call=lambda: None, post=post)
+
+
+def r_from_iodata(w, op):
+    cands = [e for e in w.moles if e.role == "iodata"]
+    if not cands:
+        m = make_iodata({"atcoords": [[0.0, 0.0, 0.0]], "conventions": {"0,c": ["1"]},
+                         "shells": [{"icenter": 0, "l": 0, "kind": "c", "exps": [1.1, 0.3], "coeffs": [0.4, 0.7]}]})
+        w.moles.append(Entry(m, "iodata"))
+        cands = [w.moles[-1]]
+    m = cands[op["md"] % len(cands)].obj
+    fn = w.api.fn["from_iodata"]
+    arg = m
+    valid = True
+    inv = op.get("invalid")
+    if inv and not op["keep"]:
+        arg = [None, "IOData", 3.5][inv["kind"] % 3]
+        valid = False
+
+    def post(value):
+        if isinstance(value, (list, tuple)):
+            for sh in value:
+                w.shells.append(Entry(sh, meta={"cls": "iodata"}))
+            if len(value):
+                w.containers.append(Entry(value))
+
+    b = Bound("W" if op["keep"] else "query", "from_iodata", call=lambda: fn(arg), args=[arg], post=post, importy=False)
     b.valid = valid
     return b
 
@@ -900,8 +976,13 @@ def r_query(w, op):
             kwargs.append(["symmetric", P["symmetric"], "flag"])
     elif fn_name == "generate_transformation":
         sh = basis[d[1] % len(basis)]
+        try:
+            sph = sh.angmom_components_sph
+        except ValueError:  # wrapper shells may not define a spherical convention for this angmom
+            l = sh.angmom
+            sph = tuple(["s%d" % m for m in range(l, 0, -1)] + ["c%d" % m for m in range(l + 1)])
         args += [["angmom", sh.angmom, "scalar"], ["cartesian_order", sh.angmom_components_cart, "orders"],
-                 ["spherical_order", sh.angmom_components_sph, "sph"], ["apply_from", P["apply_from"], "str"]]
+                 ["spherical_order", sph, "sph"], ["apply_from", P["apply_from"], "str"]]
     elif fn_name == "cls_contraction":
         return _bind_cls_contraction(w, op, basis, rs, reuse, pts, charges_for, int_array, float_vec)
     elif fn_name == "cls_array":
@@ -1049,6 +1130,8 @@ RESOLVERS = {
     "make_contr": r_make_contr,
     "new_mole": r_new_mole,
     "from_pyscf": r_from_pyscf,
+    "new_iodata": r_new_iodata,
+    "from_iodata": r_from_iodata,
     "update": r_update,
     "scribble": r_scribble,
     "query": r_query,
